@@ -646,7 +646,7 @@ impl<C: CrcCalculator> Encapsulator<C> {
             // the mandatory header extension replaces the protocol type
             // checking if the last extension id corresponds to this protocol type
             if extensions.last().unwrap().id() != protocol_type
-                && matches!(
+                || !matches!(
                     extensions.last().unwrap().data(),
                     ExtensionData::MandatoryData(..)
                 )
